@@ -17,7 +17,7 @@ RULE = ("for random (token, key, nonce) triples (key/token offered as bytes or h
         "and counter - must make Device.authenticate raise AuthenticationError (LAN.authenticate: AuthenticationError or TimeoutError), "
         "leave Device.token/key as they were (None, or the credentials of an earlier successful authentication on a previous connection), "
         "put nothing but handshake requests carrying the offered token on the wire, and leave the session unauthenticated (the next "
-        "exchange starts with a handshake or sends nothing). Header/counter flips that leave the 64 proof bytes intact may also succeed, "
+        "exchange starts with a handshake or sends nothing). Session histories on one object: after a genuine authentication, a second authenticate - on the live session or after the 12 h lifetime passed - that is answered with an altered reply, an error packet, or is called with a wrong key must fail the same way, and an expired session must then stay unauthenticated. Header/counter flips that leave the 64 proof bytes intact may also succeed, "
         "then with equal keys. distinct = (triple id, alteration); all non-trivial")
 ASSUMPTIONS = ["a failed re-authentication on a still-authenticated live connection is not judged here (see C07 notes); prior credentials are "
                "tested across a connection the peer closed",
@@ -45,6 +45,14 @@ def generate(ctx, rng):
         yield ("types", t), {**base, "family": "types"}
         yield ("otherkey", t), {**base, "family": "otherkey", "other": rng.randbytes(32)}
         yield ("header", t), {**base, "family": "header"}
+    # histories on one object: genuine authentication, then (a) the 12 h lifetime passes and the re-authentication is answered
+    # with an altered reply, or (b) authenticate is called again on the still-valid session with a wrong key / altered reply
+    for j in range(24 if quick else 1200):
+        yield ("session", j), {"token": rng.randbytes(64), "key": rng.randbytes(32), "nonce": None, "other": rng.randbytes(32),
+                               "key_form": rng.choice(["bytes", "hex"]), "token_form": rng.choice(["bytes", "hex"]), "prior": False,
+                               "tid": 30000 + j, "family": "session",
+                               "variant": ["expired-then-altered", "live-wrong-key", "live-altered", "expired-then-wrong-key",
+                                           "live-good-again", "expired-then-error-packet"][j % 6]}
     # genuine replies that are late: well inside the read timeout, and arriving in the window right after a read
     # timeout fired but before the retry starts (same loop iteration: the 2 s timer runs first, then the delivery)
     for j, delay in enumerate([0.0, 0.3, 1.0, 1.75, 1.999, 2.0 + 1e-7] * (4 if quick else 60)):
@@ -111,6 +119,8 @@ def run_case(ctx, case):
     tok_arg, key_arg = _form(token, case["token_form"]), _form(key, case["key_form"])
     if case["family"] == "genuine":
         return _genuine(ctx, case, token, key, nonce, tok_arg, key_arg)
+    if case["family"] == "session":
+        return _session(ctx, case, token, key, tok_arg, key_arg)
     old_tok, old_key = bytes(reversed(token)), bytes(reversed(key))
     results = []
     net = H.new_net()
@@ -264,3 +274,97 @@ def _genuine(ctx, case, token, key, nonce, tok_arg, key_arg):
     if nonce and any(c.skey != v3.session_key(key, nonce) for c in dev.conns):
         ctx.inconclusive_because("simulated device did not derive nonce XOR key")
     ctx.count(k, kind="genuine-ok", sample={"key_form": case["key_form"], "token_form": case["token_form"]})
+
+
+def _session(ctx, case, token, key, tok_arg, key_arg):
+    """A second authentication on an object that authenticated genuinely before (live or expired session)."""
+    import asyncio
+    variant = case["variant"]
+    other = bytes(case["other"])
+    net = H.new_net()
+    dev = SimDevice(net, version=3, token=token, key=key, device_id=0xD00D, seed=case["tid"])
+    mode = {"alter": None}
+
+    def on_handshake(conn, ok, reply, info):
+        if mode["alter"] is None or not ok:
+            return None
+        return [(0, mode["alter"](reply, info))]
+
+    dev.on_handshake = on_handshake
+
+    def flip(reply, info):
+        b = bytearray(reply)
+        b[8 + (case["tid"] * 7) % 64] ^= 1 << (case["tid"] % 8)
+        return bytes(b)
+
+    async def go(loop):
+        ac = AC(ip=dev.host, port=dev.port, device_id=dev.device_id)
+        await ac.authenticate(tok_arg, key_arg)
+        await ac.refresh()
+        first_ok = ac.online
+        if variant.startswith("expired"):
+            await asyncio.sleep(12 * 3600 + 61.7)
+        before = (ac.token, ac.key)
+        n_ev = len(dev.events)
+        exc = None
+        try:
+            if variant in ("expired-then-altered", "live-altered"):
+                mode["alter"] = flip
+                await ac.authenticate(tok_arg, key_arg)
+            elif variant in ("live-wrong-key", "expired-then-wrong-key"):
+                await ac.authenticate(tok_arg, other.hex() if case["key_form"] == "hex" else other)
+            elif variant == "expired-then-error-packet":
+                mode["alter"] = lambda reply, info: v3.build_error(info["counter"])
+                await ac.authenticate(tok_arg, key_arg)
+            else:
+                await ac.authenticate(tok_arg, key_arg)
+        except BaseException as e:  # noqa: BLE001
+            exc = e
+        mode["alter"] = None
+        after = (ac.token, ac.key)
+        wire = [ev for ev in dev.events[n_ev:] if ev[1] == "pkt"]
+        n2 = len(dev.events)
+        ferr = None
+        try:
+            await ac.refresh()
+        except BaseException as e:  # noqa: BLE001
+            ferr = e
+        follow = [ev for ev in dev.events[n2:] if ev[1] == "pkt"]
+        return first_ok, exc, before, after, wire, follow, ferr, ac.online
+
+    k = (case["tid"], "session", variant)
+    try:
+        (first_ok, exc, before, after, wire, follow, ferr, online), loop = H.run_virtual(go, net)
+    except Exception as e:  # noqa: BLE001
+        ctx.count(k, kind="session-raised")
+        ctx.violation("genuine-rejected", f"initial genuine authentication failed in a session history: {type(e).__name__}: {e}", case)
+        return
+    if not first_ok:
+        ctx.violation("no-key-agreement", "exchange after the initial genuine handshake not accepted", case)
+        return
+    if isinstance(exc, (KeyboardInterrupt, SystemExit)):
+        raise exc
+    if variant == "live-good-again":
+        ctx.count(k, kind="session-reauth-good")
+        if exc is not None or not online:
+            ctx.violation("genuine-rejected", f"genuine re-authentication on a live session failed: {exc!r}, online={online}", case)
+        return
+    ctx.count(k, kind=f"session-{variant}", sample={"variant": variant, "exception": type(exc).__name__ if exc else None})
+    if exc is None:
+        ctx.violation("altered-reply-accepted", f"second authentication succeeded although the reply does not prove the offered key ({variant})", case)
+        return
+    if not isinstance(exc, AuthenticationError):
+        ctx.violation(f"wrong-exception/{type(exc).__name__}", f"Device.authenticate raised {type(exc).__name__}: {exc} ({variant})", case)
+    if after != before:
+        ctx.violation("stored-credentials-replaced", f"token/key changed although authentication failed ({variant})", case)
+    for ev in wire:
+        if ev[3] != "hs-req":
+            ctx.violation("non-handshake-sent", f"packet of kind {ev[3]} written during a failing authentication ({variant})", case)
+    if ferr is not None:
+        ctx.violation("follow-up-raises", f"refresh after the failed authentication raised {type(ferr).__name__}: {ferr}", case)
+    if variant.startswith("expired"):
+        # the expired session must stay unauthenticated: the next exchange begins with a handshake, never with data
+        if follow and follow[0][3] != "hs-req":
+            ctx.violation("data-before-handshake", f"after a failed re-authentication of an expired session the next exchange started with "
+                          f"{follow[0][3]} ({variant})", case)
+        ctx.bump("follow-up-checked")
